@@ -232,6 +232,17 @@ class XyeModel(Model):
                     out._store[p] = r.elems[k]
                 return out
             raise AnalysisError(f'{path}(out=...) into {out!r} at {interp.where(node)}')
+        if path == 'numpy.finfo' and len(args) == 1 and hasattr(args[0], 'name') and not isinstance(args[0], str):
+            return super().call_ext(interp, path, [args[0].name], kwargs, node)  # the dtype of a loaded column
+        if path == 'numpy.errstate':
+            return _NullContext()
+        if path.startswith('numpy.') and path.count('.') == 1 and path not in ('numpy.square', 'numpy.transpose', 'numpy.atleast_2d', 'numpy.loadtxt', 'numpy.savetxt') \
+                and any(isinstance(a, NdArr) for a in args):
+            # any other element-wise numpy function of loaded columns: an expression of the cells that is not a plain square
+            n = next(a.size for a in args if isinstance(a, NdArr))
+            shape = next(a.shape for a in args if isinstance(a, NdArr))
+            cols = [a.elems if isinstance(a, NdArr) and a.size == n else [a] * n for a in args]
+            return NdArr(shape, 'float64', [Expr(path.split('.')[-1], tuple(c[k] for c in cols), None) for k in range(n)])
         if path == 'numpy.square' and args:
             return args[0] ** 2 if isinstance(args[0], NdArr) else interp.binop('pow', lambda a, b: a ** b, args[0], 2, node)
         if path == 'numpy.atleast_2d' and args and isinstance(args[0], NdArr):
@@ -271,6 +282,16 @@ class XyeModel(Model):
         r.members['data_var'] = data
         r.members['coords'] = kwargs.get('coords')
         return r
+
+
+class _NullContext:
+    context_manager = True
+
+    def __enter__(self):
+        return self
+
+    def __exit__(self, *a):
+        return False
 
 
 class Cell:
